@@ -136,7 +136,7 @@ def run_selftest(ctx, prop, seed):
             text = m.mod(modname).text
         except model.AnalysisError:
             continue
-        for label, src in selftest.variants(modname, text, ['T1', 'T2', 'T3', 'T4', 'T5', 'T6', 'T7', 'T8', 'T9', 'T10', 'T11', 'T12', 'T13', 'T14', 'T15', 'T16', 'T17']):
+        for label, src in selftest.variants(modname, text, ['T1', 'T2', 'T3', 'T4', 'T5', 'T6', 'T7', 'T8', 'T9', 'T10', 'T11', 'T12', 'T13', 'T14', 'T15', 'T16', 'T17', 'T18', 'T19', 'T20', 'T21']):
             jobs.append((prop, modname, src, seed))
             labels.append(label)
     if not jobs:
